@@ -55,19 +55,44 @@ func diffMetrics(a, b []metricRow) metricDiff {
 	return d
 }
 
-// timeDerived: a metric whose value is computed from simulated time stamps.
-// The reporters give every such metric the unit "second" or "cycles/inst";
-// counts and sizes ("count", "bytes") are functional. Unknown units and
-// row-set differences are treated as functional (strict).
-func timeDerived(what string, rows [2]metricRow) bool {
+// Metric classes. The reporters give every metric that is computed from
+// simulated time stamps the unit "second" or "cycles/inst" (classTime).
+// classMemEvents are the event counters of the memory-hierarchy timing model:
+// whether an access hits, merges into an outstanding miss (mshr hit) or misses
+// -- and therefore how many transactions and bytes reach the next level, the
+// DRAM and the RDMA engines -- depends on the relative timing of the accesses,
+// so these counters are functions of simulated time although their unit is
+// "count"/"bytes". Everything else (instruction counts, unknown units, and the
+// set of rows itself) is functional.
+const (
+	classFunctional = iota
+	classTime
+	classMemEvents
+)
+
+var memEventWhats = map[string]bool{
+	"hit": true, "miss": true, "mshr-hit": true,
+	"read-hit": true, "read-miss": true, "read-mshr-hit": true,
+	"write-hit": true, "write-miss": true, "write-mshr-hit": true,
+	"read_trans_count": true, "write_trans_count": true, "read_size": true, "write_size": true,
+	"incoming_trans_count": true, "outgoing_trans_count": true,
+}
+
+func metricClass(what string, rows [2]metricRow) int {
 	if strings.HasPrefix(what, "row-set:") {
-		return false
+		return classFunctional
 	}
 	u := rows[0].Unit
 	if u == "" {
 		u = rows[1].Unit
 	}
-	return u == "second" || u == "cycles/inst"
+	if u == "second" || u == "cycles/inst" {
+		return classTime
+	}
+	if memEventWhats[what] && (u == "count" || u == "bytes") {
+		return classMemEvents
+	}
+	return classFunctional
 }
 
 // ---------------------------------------------------------------------------
@@ -107,19 +132,22 @@ func hostCond(r *vlib.PRNG, idx int, perm []int) runDesc {
 // makeRuns builds the K runs of a case: half under family A, half under B;
 // B's first run is the natural schedule (no injected delays), all others use
 // PRNG delays with a seed of their own; raceRuns of them use the -race build.
-func makeRuns(r *vlib.PRNG, k, raceRuns int) []runDesc {
+func makeRuns(r *vlib.PRNG, k, raceRuns int, repeat bool) []runDesc {
 	perm := r.Perm(len(gomaxprocsPool))
 	runs := make([]runDesc, 0, k)
 	racePick := r.Perm(k)
 	isRace := map[int]bool{}
-	for i := 0; i < raceRuns && i < k; i++ {
-		isRace[racePick[i]] = true
+	for _, i := range racePick { // the -race build is ~10x slower: not on the runs that execute the program twice
+		if len(isRace) < raceRuns && !(repeat && i < k/2 && i%2 == 1) {
+			isRace[i] = true
+		}
 	}
 	for i := 0; i < k; i++ {
 		h := hostCond(r, i, perm)
 		if i < k/2 {
 			h.Family = "A"
 			h.Delays = true
+			h.Repeat = repeat && i%2 == 1
 		} else {
 			h.Family = "B"
 			h.Delays = i != k/2
@@ -247,7 +275,19 @@ func canonicalCases() []caseRuns {
 	if runtime.NumCPU() < 2 {
 		runs[1].CPUs = ""
 	}
-	return []caseRuns{{Case: c, Runs: runs, Canonical: true}}
+	// second canonical case: the program on which the SIMD instruction counter
+	// and the TLB hit / mshr-hit split were seen to differ under the adversarial
+	// hand-off (each in roughly every second run with engine-thread stalls)
+	c2 := caseDesc{Name: "canon-vectoradd-16384-mi300a-unified-gpus1+2", Workload: "vectoradd", Params: map[string]int{"width": 16384, "height": 1},
+		Timing: true, GPUType: "mi300a", Arch: "cdna3", GPUs: []int{1, 2}, Unified: true, RandSeed: 1}
+	runs2 := []runDesc{
+		{Family: "A", Delays: true, DelaySeed: 0xC05A3, GOMAXPROCS: 2, GOGC: "10"},
+		{Family: "A", Delays: true, DelaySeed: 0xC05A4, GOMAXPROCS: 4, GOGC: "off"},
+	}
+	for i := 0; i < 6; i++ {
+		runs2 = append(runs2, runDesc{Family: "B", Delays: true, DelaySeed: 0xC05B10 + uint64(i), GOMAXPROCS: gomaxprocsPool[i%4], GOGC: "100"})
+	}
+	return []caseRuns{{Case: c, Runs: runs, Canonical: true}, {Case: c2, Runs: runs2, Canonical: true}}
 }
 
 func buildCases(c *vlib.Check) (cases []caseRuns, par []caseRuns) {
@@ -260,7 +300,7 @@ func buildCases(c *vlib.Check) (cases []caseRuns, par []caseRuns) {
 		for slot := 0; slot < 6; slot++ {
 			r := base.ForkN(fmt.Sprintf("round%d", round), slot)
 			cd := genCase(r, round, slot)
-			cases = append(cases, caseRuns{Case: cd, Runs: makeRuns(r.Fork("runs"), k, race)})
+			cases = append(cases, caseRuns{Case: cd, Runs: makeRuns(r.Fork("runs"), k, race, slot == 0 || slot == 1 || slot == 4)})
 		}
 	}
 	// parallel engine: functional comparison (buffers only) against the serial
@@ -330,23 +370,37 @@ func (j *judge) witness(cr caseRuns, ref, other runRecord, extra map[string]any)
 	return w
 }
 
-func diffExamples(d metricDiff, max int) []map[string]any {
-	whats := make([]string, 0, len(d.first))
-	for w := range d.first {
-		whats = append(whats, w)
+func diffExamples(d metricDiff, only []string, max int) []map[string]any {
+	whats := only
+	if whats == nil {
+		for w := range d.first {
+			whats = append(whats, w)
+		}
+		sort.Strings(whats)
 	}
-	sort.Strings(whats)
 	var out []map[string]any
 	for _, w := range whats {
 		if len(out) >= max {
 			break
 		}
-		p := d.first[w]
+		p, ok := d.first[w]
+		if !ok {
+			continue
+		}
 		out = append(out, map[string]any{"what": w, "rows_differing": d.byWhat[w],
 			"reference": fmt.Sprintf("%s %s = %v %s", p[0].Location, p[0].What, p[0].Value, p[0].Unit),
 			"other":     fmt.Sprintf("%s %s = %v %s", p[1].Location, p[1].What, p[1].Value, p[1].Unit)})
 	}
 	return out
+}
+
+// sameBuffers: process ids are part of the digest unless one of the two runs
+// is a second run inside one process (its contexts get the next process ids).
+func sameBuffers(a, b runRecord) bool {
+	if a.Job.Run.Repeat != b.Job.Run.Repeat {
+		return a.Res.BufDigestNoPID == b.Res.BufDigestNoPID
+	}
+	return a.Res.BufDigest == b.Res.BufDigest
 }
 
 func bufDiff(a, b childResult) string {
@@ -415,6 +469,9 @@ func (j *judge) judgeCase(cr caseRuns, recs []runRecord, serialRef *runRecord) {
 		if r.CPUs != "" {
 			c.Count("runs_taskset_pinned", 1)
 		}
+		if r.Repeat {
+			c.Count("runs_second_in_same_process", 1)
+		}
 		if r.Delays {
 			c.Count("runs_with_injected_delays", 1)
 			c.Distinct("delay_schedule", rr.Res.DelaySchedule)
@@ -453,7 +510,7 @@ func (j *judge) judgeCase(cr caseRuns, recs []runRecord, serialRef *runRecord) {
 				continue
 			}
 			c.Count("parallel_engine_buffer_comparisons", 1)
-			if rr.Res.BufDigest != ref.Res.BufDigest {
+			if !sameBuffers(ref, rr) {
 				c.Violation("C05|parallel|buffer",
 					fmt.Sprintf("case %s: final device memory of a parallel-engine run differs from the reference run: %s", cr.Case.Name, bufDiff(ref.Res, rr.Res)),
 					j.witness(cr, ref, rr, nil))
@@ -491,7 +548,7 @@ func (j *judge) judgeCase(cr caseRuns, recs []runRecord, serialRef *runRecord) {
 		c.Count("metric_rows_compared", int64(len(ref.Metrics)))
 		c.Count("run_pairs_compared", 1)
 		timeDiff := ref.Res.TimeRunBits != rr.Res.TimeRunBits || ref.Res.TimeDumpBits != rr.Res.TimeDumpBits || ref.Res.TimeEndBits != rr.Res.TimeEndBits
-		bufDiffers := ref.Res.BufDigest != rr.Res.BufDigest
+		bufDiffers := !sameBuffers(ref, rr)
 		fam := rr.Job.Run.Family
 		if strict {
 			c.Count("A_pairs_compared_bit_for_bit", 1)
@@ -507,7 +564,7 @@ func (j *judge) judgeCase(cr caseRuns, recs []runRecord, serialRef *runRecord) {
 			whats := sortedKeys(d.byWhat)
 			for _, w := range whats {
 				c.Violation("C05|A|metric|"+w, fmt.Sprintf("case %s: %d rows of mgpusim_metrics '%s' differ between two quiescent-hand-off runs", cr.Case.Name, d.byWhat[w], w),
-					j.witness(cr, ref, rr, map[string]any{"examples": diffExamples(d, 8)}))
+					j.witness(cr, ref, rr, map[string]any{"examples": diffExamples(d, []string{w}, 8)}))
 			}
 			continue
 		}
@@ -517,15 +574,30 @@ func (j *judge) judgeCase(cr caseRuns, recs []runRecord, serialRef *runRecord) {
 			c.Violation("C05|"+fam+"|buffer", fmt.Sprintf("case %s: final device memory differs between runs that differ only in host conditions: %s", cr.Case.Name, bufDiff(ref.Res, rr.Res)),
 				j.witness(cr, ref, rr, nil))
 		}
-		var timeWhats []string
+		var timeWhats, memWhats []string
 		for _, w := range sortedKeys(d.byWhat) {
-			if timeDerived(w, d.first[w]) {
+			switch metricClass(w, d.first[w]) {
+			case classTime:
 				timeWhats = append(timeWhats, w)
-				continue
+			case classMemEvents:
+				memWhats = append(memWhats, w)
+			default:
+				c.Violation("C05|"+fam+"|functional-metric|"+w,
+					fmt.Sprintf("case %s: %d rows of the functional metric '%s' differ between runs that differ only in host conditions", cr.Case.Name, d.byWhat[w], w),
+					j.witness(cr, ref, rr, map[string]any{"examples": diffExamples(d, []string{w}, 8)}))
 			}
-			c.Violation("C05|"+fam+"|functional-metric|"+w,
-				fmt.Sprintf("case %s: %d rows of the functional metric '%s' differ between runs that differ only in host conditions", cr.Case.Name, d.byWhat[w], w),
-				j.witness(cr, ref, rr, map[string]any{"examples": diffExamples(d, 8)}))
+		}
+		if len(memWhats) > 0 {
+			c.Count("B_runs_with_memory_event_count_differences", 1)
+			j.mu.Lock()
+			for _, w := range memWhats {
+				j.handoffObserved[w] += d.byWhat[w]
+			}
+			j.mu.Unlock()
+			c.Violation("C05|handoff-window|memory-event-counts",
+				fmt.Sprintf("case %s: event counters of the memory-hierarchy timing model depend on host scheduling: %v differ (end time %s with quiescent hand-off vs %s)", cr.Case.Name, memWhats,
+					ftime(ref.Res.TimeEndBits), ftime(rr.Res.TimeEndBits)),
+				j.witness(cr, ref, rr, map[string]any{"memory_event_counters_differing": memWhats, "examples": diffExamples(d, memWhats, 8)}))
 		}
 		if timeDiff || len(timeWhats) > 0 {
 			c.Count("B_runs_with_time_derived_differences", 1)
@@ -540,7 +612,7 @@ func (j *judge) judgeCase(cr caseRuns, recs []runRecord, serialRef *runRecord) {
 			c.Violation("C05|handoff-window|time-derived-only",
 				fmt.Sprintf("case %s: simulated times depend on host scheduling: end time %s (quiescent hand-off) vs %s; time-derived metrics differing: %v", cr.Case.Name,
 					ftime(ref.Res.TimeEndBits), ftime(rr.Res.TimeEndBits), timeWhats),
-				j.witness(cr, ref, rr, map[string]any{"time_derived_metrics_differing": timeWhats, "examples": diffExamples(d, 6)}))
+				j.witness(cr, ref, rr, map[string]any{"time_derived_metrics_differing": timeWhats, "examples": diffExamples(d, timeWhats, 6)}))
 		}
 	}
 }
@@ -674,8 +746,9 @@ func parentMain() {
 	}
 	c.Set("runs", runList)
 	c.Set("handoff_finding_observables_differing", j.handoffObserved)
-	c.Set("time_derived_rule", "a metric is time-derived iff its unit is 'second' or 'cycles/inst'; units 'count' and 'bytes' (and anything else, and the set of rows) are functional")
+	c.Set("metric_classes", "time-derived: unit 'second' or 'cycles/inst'; memory-event counts: cache/TLB hit, miss, mshr-hit splits, DRAM and RDMA transaction counts and sizes; functional: everything else (instruction counts, unknown units) and the set of rows")
 
+	cleanup()
 	restricted := replay != nil || os.Getenv("C05_ONLY_CANONICAL") != ""
 	minNT := c.N(12, 100)
 	minC := map[string]int64{
@@ -691,14 +764,15 @@ func parentMain() {
 		Rule: "case = (workload, inputs, platform configuration); every case runs K times in separate processes that differ only in host conditions " +
 			"(GOMAXPROCS, taskset pinning, GOGC, plain or -race build, PRNG delays at the driver's yield points and engine-thread stalls after completion notifications). " +
 			"Family A (quiescent hand-off, every command injected into an idle engine): buffers, engine times and every mgpusim_metrics row bit-identical; " +
-			"family B (adversarial hand-off): buffers, count/bytes metrics and the set of rows identical. " +
+			"family B (adversarial hand-off): buffers, instruction counts (every count/bytes metric that is not a memory-hierarchy event counter) and the set of rows identical; " +
+			"differences of time-valued metrics and of memory-hierarchy event counters under B are reported under the two hand-off keys. " +
 			"distinct_nontrivial = distinct (case, host condition) pairs of completed runs with >= 10 application->engine hand-offs and >= 100 metric rows, compared against another run of the same case",
 		Assumptions: []string{
 			"one application goroutine per simulation (runner.Run with one benchmark); serial engine except in the parallel-engine comparison, where only buffers are compared",
 			"identical inputs: //go:debug randseednop=0 + rand.Seed(case seed) in every child; fresh process per run",
 			"only Engine.CurrentTime(), the rows (location, what, value, unit) of mgpusim_metrics and the live device buffers are compared; wall-clock fields, ids and exec_info are not",
 			"family A holds the application at 'drain.return' and runAsync at 'async.signal' until runAsync is back at its select and the engine goroutine has exited; a run whose hold expired is not judged under A",
-			"time-derived differences under family B are attributed to the hand-off finding; family A is what excludes other causes of time differences",
+			"differences of time-valued metrics (unit second, cycles/inst) and of memory-hierarchy event counters (hit/miss/mshr-hit splits, DRAM/RDMA transaction counts and sizes) under family B are attributed to the hand-off finding; family A, where they must be bit-identical, is what excludes other causes",
 			"the read-back of all live buffers (blocking D2H copies after the program's last command) is part of every run alike",
 		},
 		MinNontrivial: minNT,
